@@ -10,13 +10,25 @@ use std::str::FromStr;
 
 /// strictly increasing by Debian Policy §5.6.12 (epoch, upstream, revision, '~')
 pub const LADDER: [&str; 9] = ["0.9", "1.0~rc1", "1.0", "1.0-1", "1.0-1+b1", "1.0.1", "1.1", "1:0.5", "2:0.1"];
+/// other spellings of the same Debian version (no epoch = epoch 0, no revision = revision 0, leading zeros)
+pub const ALT: [&[&str]; 9] = [
+    &["0:0.9", "0.9-0", "00.9"],
+    &["0:1.0~rc1", "1.0~rc1-0"],
+    &["0:1.0", "1.0-0", "1.00", "01.0"],
+    &["0:1.0-1", "1.0-01"],
+    &["0:1.0-1+b1"],
+    &["0:1.0.1", "1.0.1-0", "1.0.01"],
+    &["0:1.1", "1.01"],
+    &["1:0.5-0", "01:0.5"],
+    &["2:0.1-0", "2:0.01"],
+];
 const OPS: [Option<&str>; 6] = [None, Some("<<"), Some("<="), Some("="), Some(">="), Some(">>")];
 const PKGS: [&str; 3] = ["p0", "lib-q1", "r2+"];
 
 pub fn lanes() -> Vec<Lane> {
     vec![
         Lane { name: "ladder-check", count: |_| 1, run: ladder_lane },
-        Lane { name: "single", count: |_| (6 * 9 * 10) as u64, run: single_lane },
+        Lane { name: "single", count: |_| (6 * 9 * 10 * 5) as u64, run: single_lane },
         Lane { name: "fields", count: |c| if c.thorough() { 80_000 } else { 4_000 }, run: fields_lane },
     ]
 }
@@ -44,8 +56,16 @@ fn ladder_lane(ctx: &mut Ctx, _idx: u64) {
             }
         }
     }
+    for (i, alts) in ALT.iter().enumerate() {
+        for a in alts.iter() {
+            match Version::from_str(a) {
+                Ok(v) if v == vs[i] => {}
+                other => ctx.harness_error("alternate spelling is not Debian-equal under debversion", json!({"rung": LADDER[i], "alt": a, "parsed": format!("{:?}", other.map(|v| v.to_string()))})),
+            }
+        }
+    }
     ctx.distinct_exact += 1;
-    ctx.sample(|| json!({"ladder": LADDER}));
+    ctx.sample(|| json!({"ladder": LADDER, "alternate_spellings": ALT.iter().map(|a| a.len()).sum::<usize>()}));
 }
 
 fn rel_text(pkg: &str, op: Option<&str>, req: usize) -> String {
@@ -56,27 +76,34 @@ fn rel_text(pkg: &str, op: Option<&str>, req: usize) -> String {
 }
 
 /// evaluate a field text against an assignment with every evaluator / lookup form
-fn evaluate(text: &str, assign: &[(String, Option<usize>)]) -> Vec<(&'static str, bool)> {
-    let map: HashMap<String, Version> = assign.iter().filter_map(|(p, v)| v.map(|i| (p.clone(), Version::from_str(LADDER[i]).unwrap()))).collect();
+/// the spelling of rung `i` selected by `variant` (0 = the canonical one)
+fn spelled(i: usize, variant: usize) -> &'static str {
+    if variant == 0 { LADDER[i] } else { ALT[i][(variant - 1) % ALT[i].len()] }
+}
+
+fn evaluate(text: &str, assign: &[(String, Option<usize>)], variant: usize) -> Vec<(&'static str, bool)> {
+    let map: HashMap<String, Version> = assign.iter().filter_map(|(p, v)| v.map(|i| (p.clone(), Version::from_str(spelled(i, variant)).unwrap()))).collect();
     let closure = |name: &str| -> Option<Version> { map.get(name).cloned() };
     let mut out = vec![];
     let l = ll::Relations::from_str(text).unwrap();
-    out.push(("lossless Relations::satisfied_by(closure)", l.satisfied_by(closure)));
-    out.push(("lossless all(Entry::satisfied_by(closure))", l.entries().all(|e| e.satisfied_by(closure))));
+    out.push(("lossless::Relations::satisfied_by(closure)", l.satisfied_by(closure)));
+    out.push(("lossless::all(Entry::satisfied_by(closure))", l.entries().all(|e| e.satisfied_by(closure))));
     let y = lossy::Relations::from_str(text).unwrap();
-    out.push(("lossy Relations::satisfied_by(closure)", y.satisfied_by(closure)));
-    out.push(("lossy all(any(Relation::satisfied_by(closure)))", y.0.iter().all(|e| e.iter().any(|r| r.satisfied_by(closure)))));
-    out.push(("lossy all(any(Relation::satisfied_by(HashMap)))", y.0.iter().all(|e| e.iter().any(|r| r.satisfied_by(map.clone())))));
+    out.push(("lossy::Relations::satisfied_by(closure)", y.satisfied_by(closure)));
+    out.push(("lossy::all(any(Relation::satisfied_by(closure)))", y.0.iter().all(|e| e.iter().any(|r| r.satisfied_by(closure)))));
+    out.push(("lossy::all(any(Relation::satisfied_by(HashMap)))", y.0.iter().all(|e| e.iter().any(|r| r.satisfied_by(map.clone())))));
     // the single (name, version) pair form can only describe one installed package
     if map.len() == 1 {
         let (n, v) = map.iter().next().unwrap();
         let pair = (n.clone(), v.clone());
-        out.push(("lossy all(any(Relation::satisfied_by((name,version))))", y.0.iter().all(|e| e.iter().any(|r| r.satisfied_by(pair.clone())))));
+        out.push(("lossy::all(any(Relation::satisfied_by((name,version))))", y.0.iter().all(|e| e.iter().any(|r| r.satisfied_by(pair.clone())))));
     }
     out
 }
 
 fn single_lane(ctx: &mut Ctx, idx: u64) {
+    let variant = (idx / 540) as usize;
+    let idx = idx % 540;
     let op = OPS[(idx % 6) as usize];
     let req = ((idx / 6) % 9) as usize;
     let inst = match idx / 54 {
@@ -86,7 +113,7 @@ fn single_lane(ctx: &mut Ctx, idx: u64) {
     let text = rel_text("p0", op, req);
     let assign = vec![("p0".to_string(), inst), ("other".to_string(), Some(3))];
     let want = holds(op, inst, req);
-    let res = guard(256, || evaluate(&text, &assign));
+    let res = guard(256, || evaluate(&text, &assign, variant));
     match res {
         Err(f) => ctx.violation(&format!("{}|satisfied_by|single", f.class()), json!({"field": text, "installed": inst.map(|i| LADDER[i]), "failure": f.json()})),
         Ok(v) => {
@@ -94,8 +121,8 @@ fn single_lane(ctx: &mut Ctx, idx: u64) {
                 ctx.count("evaluations");
                 if got != want {
                     ctx.violation(
-                        &format!("wrong-answer|{}|op:{}", who, op.unwrap_or("none")),
-                        json!({"field": text, "installed": inst.map(|i| LADDER[i]), "expected": want, "got": got, "evaluator": who}),
+                        &format!("wrong-answer|{}|op:{}{}", who, op.unwrap_or("none"), if variant > 0 { ",respelled" } else { "" }),
+                        json!({"field": text, "installed": inst.map(|i| spelled(i, variant)), "expected": want, "got": got, "evaluator": who}),
                     );
                 }
             }
@@ -124,7 +151,8 @@ fn fields_lane(ctx: &mut Ctx, _idx: u64) {
         let inst = [choices[a % 4], choices[(a / 4) % 4], choices[a / 16]];
         let assign: Vec<(String, Option<usize>)> = (0..3).map(|k| (PKGS[k].to_string(), inst[k])).collect();
         let want = model.iter().all(|e| e.iter().any(|(p, o, q)| holds(*o, inst[*p], *q)));
-        let res = guard(1024, || evaluate(&text, &assign));
+        let variant = a % 5;
+        let res = guard(1024, || evaluate(&text, &assign, variant));
         match res {
             Err(f) => {
                 ctx.violation(&format!("{}|satisfied_by|field", f.class()), json!({"field": text, "failure": f.json()}));
